@@ -7,7 +7,7 @@ from . import files as F
 from cocoasm.virtualfiles.disk import DiskConstants, DiskFile
 from cocoasm.virtualfiles.virtual_file_exceptions import VirtualFileValidationError
 
-ML_LENGTHS_QUICK = [0, 1, 255, 256, 2289, 2293, 2294, 2295, 2296, 2299, 2304, 4597, 4598, 4600, 4603, 4608]
+ML_LENGTHS_QUICK = [0, 1, 246, 255, 256, 2289, 2293, 2294, 2295, 2296, 2299, 2304, 2550, 4597, 4598, 4600, 4603, 4608, 55000]
 ML_LENGTHS_FULL = sorted(set([0, 1, 2, 245, 246, 255, 256, 257] + list(range(2284, 2306)) + list(range(4588, 4613)) +
                          list(range(6892, 6916)) + [65535]))
 
@@ -40,9 +40,9 @@ def scenarios(tier, seed):
     lengths = ML_LENGTHS_FULL if full else ML_LENGTHS_QUICK
     for L in lengths:
         out.append(("ml:%d" % L, [S("PROG", L, "ml")], "default", 16, 0))
-    for L in ([0, 1, 2301, 2302, 2304, 4605, 4606] if not full else [0, 1, 2, 256, 2300, 2301, 2302, 2303, 2304, 2305, 4604, 4605, 4606, 4608]):
+    for L in ([0, 1, 253, 2301, 2302, 2304, 4605, 4606] if not full else [0, 1, 2, 256, 2300, 2301, 2302, 2303, 2304, 2305, 4604, 4605, 4606, 4608]):
         out.append(("basic:%d" % L, [S("BAS", L, "basic", ext="BAS")], "default", 16, 0))
-    for L in ([0, 1, 2303, 2304, 2305, 4608] if not full else [0, 1, 255, 256, 2303, 2304, 2305, 4607, 4608, 4609]):
+    for L in ([0, 1, 256, 1280, 2303, 2304, 2305, 2816, 4608] if not full else [0, 1, 255, 256, 2303, 2304, 2305, 4607, 4608, 4609]):
         out.append(("ascii:%d" % L, [S("TXT", L, "ascii", ext="TXT")], "default", 16, 0))
     for nm, ext in [("A", "B"), ("hello", "bin"), ("ABCDEFGH", "XYZ"), ("ABCDEFGHIJKL", "BIN"), ("Mix3d", ""), ("N1", "TOOLONG")]:
         out.append(("name:%s.%s" % (nm, ext), [S(nm, 5, "ml", ext=ext)], "default", 16, 0))
